@@ -263,7 +263,8 @@ func gen(t *rapid.T) Case {
 	c.Procs = rapid.SampledFrom([]int{1, 2, 3, 4, 8}).Draw(t, "procs")
 	switch c.Engine {
 	case "sched":
-		c.Policy = rapid.SampledFrom([]string{"feeder_first_fifo", "feeder_first_lifo", "feeder_first_lifo", "workers_first_fifo", "workers_first_lifo"}).Draw(t, "policy")
+		c.Policy = rapid.SampledFrom([]string{"feeder_first_fifo", "feeder_first_lifo", "feeder_first_lifo", "workers_first_fifo", "workers_first_lifo",
+			"feeder_first_fifo_answers_wait", "feeder_first_lifo_answers_wait", "workers_first_fifo_answers_wait"}).Draw(t, "policy")
 		// deviations from the base order: mostly none (0), so that starvation patterns persist
 		c.Choices = rapid.SliceOfN(rapid.SampledFrom([]int{0, 0, 0, 0, 0, 0, 1, 1, 2, 3}), 0, 250).Draw(t, "choices")
 	case "plain":
